@@ -1322,8 +1322,14 @@ func (m *membershipAllower) membershipAllowedSelf() error { // nolint: gocyclo
 			// An invited user can reject the invite.
 			return nil
 		case spec.Knock:
-			// A knocking user can cancel their knock.
-			return nil
+			// A knocking user can cancel their knock, in the room versions that have
+			// knocking: ask the version whether somebody outside a "knock" room may knock.
+			return m.roomVersionImpl.CheckKnockingAllowed(
+				string(m.roomVersionImpl.Version()),
+				m.senderID, m.targetID,
+				spec.Knock,
+				m.oldMember.Membership,
+			)
 		default:
 			return m.membershipFailed(
 				"sender cannot leave from membership state %q",
